@@ -1,5 +1,7 @@
 import PdshVerif.Dsh.FanLive
 import PdshVerif.Dsh.FanExec
+import PdshVerif.Dsh.FanGLive
+import PdshVerif.Dsh.FanGExec
 
 /-!
 # C04 — never more than `fanout` remote commands are in flight
@@ -20,8 +22,19 @@ pthread scheduling.
 
 The full statement `∀ v, Reach v f n s → inflight s ≤ f` is FALSE of the code as pinned
 (`if_variant_exceeds`); it is proved under the explicit hypothesis `v = whileWait`.
+
+EVERY SIGNALLING DISCIPLINE (section `G`, LTS `Dsh/FanG.lean`: each worker's wake-up call inside or after the
+critical section, `pthread_cond_signal` | `pthread_cond_broadcast` no distinction; `Fan` is its sub-LTS,
+`Dsh/FanGEmbed.lean`):
+
+clause                                   | pinned discipline          | every discipline
+-----------------------------------------|----------------------------|------------------------------------------
+in flight ≤ fanout (`while`)             | `inflight_le_fanout`, `threadcount_le_fanout` | `G.inflight_le_fanout`, `G.threadcount_le_fanout`
+`if` construct breaks it                 | `if_variant_exceeds` (one spurious wake-up), `bound_without_spurious` (only then) | `G.if_after_exceeds_without_spurious` (a LATE wake-up call does it with NO spurious wake-up: `bound_without_spurious` is a fact about the pinned discipline only), `G.while_refuses_late_witness`
+next target started without waiting for anything but the dispatcher | `work_conserving`, `waits_only_when_full`, `room_enabled` | `G.work_conserving` (fanout slots accounted for by counted / locked / RELEASED workers), `G.parked_with_room_has_waker`, `G.waits_only_when_full`, `G.room_enabled`
 -/
 namespace PdshVerif.Props.C04
+section Pinned
 open PdshVerif.Dsh.Fan
 
 /-- `threadcount` never exceeds the fanout (`while` construct). -/
@@ -110,5 +123,120 @@ example : ∃ s, Reach .whileWait 2 3 s ∧ inflight s = 2 := by
        .w 0 .connectBegin, .w 1 .connectBegin] with
   | none => rw [hr] at h; cases h
   | some s => rw [hr] at h; simp at h; exact ⟨s, ⟨_, exec_of_run hr⟩, h⟩
+
+end Pinned
+
+/-! ## the same, for every signalling discipline (`Dsh/FanG.lean`)
+
+`FanG` leaves open where each worker's wake-up call sits (before or after its unlock) and which call it is
+(`pthread_cond_signal` | `pthread_cond_broadcast`: the dispatcher is the only waiter, no distinction).  The bound of
+the `while` construct does not depend on any of that.  Work conservation changes its wording: a worker that unlocks
+first leaves a window in which the dispatcher is parked although `threadcount < fanout`; what holds is that in that
+window somebody who WILL wake the dispatcher exists.  And the `if` construct is worse off than under the pinned
+discipline: a late wake-up call breaks the bound without any spurious wake-up. -/
+namespace G
+open PdshVerif.Dsh.FanG
+
+/-- `threadcount` never exceeds the fanout (`while` construct), whatever the discipline. -/
+theorem threadcount_le_fanout {f n : Nat} {s : St} (h : Reach .whileWait f n s) : s.tc ≤ f := by
+  obtain ⟨ls, he⟩ := h
+  have hb := bound_exec (s0 := init .whileWait f n) rfl (inv_init _ f n) (bound_init _ f n) he
+  have := (exec_params he).2.1
+  simp [init] at this
+  rw [← this]; exact hb.le
+
+/-- C04, first clause, every discipline: at every reachable state — every schedule, any number of spurious
+    wake-ups, every fanout and number of targets, wake-up calls inside or after the critical section in any
+    mixture — at most `fanout` connections are in flight (`while`). -/
+theorem inflight_le_fanout {f n : Nat} {s : St} (h : Reach .whileWait f n s) : inflight s ≤ f := by
+  have h1 := threadcount_le_fanout h
+  have h2 := (inv_reach h).cnt
+  have h3 := flying_le_counted s.ws
+  unfold inflight; omega
+
+/-- C04, second clause (work conservation), both constructs, every discipline: whenever the dispatcher is parked in
+    the dispatch loop and has not been signalled, `fanout` slots are accounted for — by workers counted in
+    `threadcount`, by workers that have decremented it and hold the mutex (about to signal or to unlock), or by
+    workers that have unlocked and are about to make their wake-up call. -/
+theorem work_conserving {v : Variant} {f n : Nat} {s : St} (h : Reach v f n s)
+    (hp : s.dpc = .parked) (hs : s.sig = false) :
+    f ≤ s.tc + s.ws.countP isLocked + s.ws.countP isReleased := by
+  have := (inv_reach h).park hp hs
+  rw [(reach_params h).2.1] at this; exact this
+
+/-- so: parked, not signalled, and yet there is room — then a worker whose wake-up call is still to come exists (and
+    that call is enabled or one step away: `Props/C03.G.progress`).  The dispatcher never sits in
+    `pthread_cond_wait` with room and NOBODY on the way to wake it. -/
+theorem parked_with_room_has_waker {v : Variant} {f n : Nat} {s : St} (h : Reach v f n s)
+    (hp : s.dpc = .parked) (hs : s.sig = false) (hroom : s.tc < f) :
+    ∃ j, pc s j = .locked ∨ pc s j = .released := by
+  have hw := work_conserving h hp hs
+  by_cases hl : 0 < s.ws.countP isLocked
+  · obtain ⟨j, hj, _⟩ := exists_of_countP_pos isLocked hl
+    refine ⟨j, Or.inl ?_⟩
+    show s.ws.getD j .idle = .locked
+    revert hj; cases s.ws.getD j .idle <;> simp [isLocked]
+  · have hr : 0 < s.ws.countP isReleased := by omega
+    obtain ⟨j, hj, _⟩ := exists_of_countP_pos isReleased hr
+    refine ⟨j, Or.inr ?_⟩
+    show s.ws.getD j .idle = .released
+    revert hj; cases s.ws.getD j .idle <;> simp [isReleased]
+
+/-- the dispatcher decides to wait only when `threadcount = fanout` (both constructs, every discipline) -/
+theorem waits_only_when_full {v : Variant} {f n : Nat} {s : St} (h : Reach v f n s)
+    (hp : s.dpc = .wait) : s.tc = f := by
+  have := (inv_reach h).waitEq hp
+  rw [(reach_params h).2.1] at this; exact this
+
+/-- with room the dispatcher's lock leads straight to `pthread_create` -/
+theorem room_enabled {s : St} (hd : s.dpc = .top) (ho : s.own = .none) (hr : s.f ≠ s.tc) :
+    ∃ s', step s (.d .lock) = some s' ∧ s'.dpc = .create := by
+  refine ⟨_, by simp only [step, hd, ho]; rfl, ?_⟩
+  simp [roomTest, hr]
+
+/-- fanout 2, five targets, `if` construct, NO spurious wake-up: worker 0 gives its slot back and unlocks, worker 1
+    finishes with an ordinary signal, the dispatcher starts workers 2 and 3 and parks again (threadcount = 2);
+    worker 0's wake-up call arrives only now, the `if` does not re-test, worker 4 is started: three in flight. -/
+def lateWitness : List Label :=
+  [.d .lock, .d (.create 0), .d .unlock, .d .lock, .d (.create 1), .d .unlock, .d .lock, .d .wait,
+   .w 0 .connectBegin, .w 0 .connectEnd, .w 0 .destroyBegin, .w 0 .destroyEnd, .w 0 .lock, .w 0 .unlockFirst,
+   .w 1 .connectBegin, .w 1 .connectEnd, .w 1 .destroyBegin, .w 1 .destroyEnd, .w 1 .lock, .w 1 .signal,
+   .w 1 .unlock, .d (.wake false), .d .relock, .d (.create 2), .d .unlock, .d .lock, .d (.create 3), .d .unlock,
+   .d .lock, .d .wait, .w 0 .signalAfter, .d (.wake false), .d .relock, .d (.create 4),
+   .w 2 .connectBegin, .w 3 .connectBegin, .w 4 .connectBegin]
+
+/-- `Props/C04.bound_without_spurious` (the pinned `if` keeps the bound as long as no wake-up is spurious) is a fact
+    about the pinned discipline ONLY: with the wake-up call after the unlock the `if` construct exceeds the fanout
+    without a single spurious wake-up.  The harmless-looking "signal after unlock" is harmless because of the
+    `while`. -/
+theorem if_after_exceeds_without_spurious :
+    ∃ s, Exec (init .ifWait 2 5) lateWitness s ∧ lateWitness.countP Label.spurious = 0 ∧
+      s.f = 2 ∧ inflight s = 3 := by
+  have h : (run (init .ifWait 2 5) lateWitness).map (fun s => (s.f, inflight s)) = some (2, 3) := by decide
+  cases hr : run (init .ifWait 2 5) lateWitness with
+  | none => rw [hr] at h; cases h
+  | some s =>
+    rw [hr] at h; simp at h
+    exact ⟨s, exec_of_run hr, by decide, h.1, h.2⟩
+
+/-- the repaired construct refuses that trace: after the late wake-up call the dispatcher re-tests and waits -/
+theorem while_refuses_late_witness : run (init .whileWait 2 5) lateWitness = none := by decide
+
+/-- non-vacuity: a reachable state of the `while` construct with `fanout` connections in flight, the dispatcher
+    parked with room (threadcount 1 < 2) while worker 0 is between its unlock and its wake-up call -/
+example : ∃ s, Reach .whileWait 2 3 s ∧ s.dpc = .parked ∧ s.sig = false ∧ s.tc = 1 ∧ pc s 0 = .released := by
+  have h : (run (init .whileWait 2 3)
+      [.d .lock, .d (.create 0), .d .unlock, .d .lock, .d (.create 1), .d .unlock, .d .lock, .d .wait,
+       .w 0 .connectBegin, .w 0 .connectEnd, .w 0 .destroyBegin, .w 0 .destroyEnd, .w 0 .lock,
+       .w 0 .unlockFirst]).map (fun s => (s.dpc, s.sig, s.tc, pc s 0)) = some (.parked, false, 1, .released) := by
+    decide
+  cases hr : run (init .whileWait 2 3)
+      [.d .lock, .d (.create 0), .d .unlock, .d .lock, .d (.create 1), .d .unlock, .d .lock, .d .wait,
+       .w 0 .connectBegin, .w 0 .connectEnd, .w 0 .destroyBegin, .w 0 .destroyEnd, .w 0 .lock,
+       .w 0 .unlockFirst] with
+  | none => rw [hr] at h; cases h
+  | some s => rw [hr] at h; simp at h; exact ⟨s, ⟨_, exec_of_run hr⟩, h.1, h.2.1, h.2.2.1, h.2.2.2⟩
+
+end G
 
 end PdshVerif.Props.C04
